@@ -972,7 +972,11 @@ func pegOracle(p *pegPair, op pegOp, res int, pre, post *pegSnap, tr *pegTrack) 
 		}
 		tokAdd(op.A, neg(x))
 		tokAdd(op.B, x)
-		checkTok, checkDelta = op.B, x
+		if op.A == op.B && checkTok == op.B { // (only a token that credits without debiting gets here)
+			checkDelta = new(big.Int).Add(checkDelta, x)
+		} else {
+			checkTok, checkDelta = op.B, x
+		}
 	case "recv":
 		addTo(&exp.Coin[op.B], x)
 		if op.F {
@@ -1119,9 +1123,6 @@ func pegClass(p *pegPair, op pegOp, tr *pegTrack) string {
 		if p.Kind == "cham" && op.Call == "transfer" && op.B == pM && tr.mode == chFake {
 			return "erc20:external-token-fake-transfer-log"
 		}
-	}
-	if op.Op == "send" && p.Kind == "cham" && tr.mode == chFalse {
-		return "erc20:wrapper-ignores-false-transfer"
 	}
 	return ""
 }
@@ -1283,11 +1284,32 @@ func pegGen(r *Rng, nops int) pegInput {
 	enabled, on, hook, mode := true, true, true, 0
 	for len(in.Ops) < nops {
 		a, bb := holders[r.Intn(3)], anyActor()
+		var op pegOp
+		rich := func(bal *[pegNA]*big.Int) int { // mostly an actor who has what the operation needs
+			if r.Chance(80) {
+				c := []int{}
+				for _, h := range holders {
+					if bal[h].Sign() > 0 {
+						c = append(c, h)
+					}
+				}
+				if len(c) > 0 {
+					return c[r.Intn(len(c))]
+				}
+			}
+			return holders[r.Intn(3)]
+		}
+		k := r.Intn(100)
+		switch {
+		case k < 16, k >= 73 && k < 93:
+			a = rich(&coin)
+		case k < 46, k >= 58 && k < 62:
+			a = rich(&tok)
+		}
 		if r.Chance(35) {
 			bb = a
 		}
-		var op pegOp
-		switch k := r.Intn(100); {
+		switch {
 		case k < 16: // coin -> token by message
 			op = pegOp{Op: "cc", A: a, B: bb, X: pegGenAmount(r, coin[a]).String()}
 		case k < 32: // token -> coin by message
@@ -1323,22 +1345,19 @@ func pegGen(r *Rng, nops int) pegInput {
 			if ownerMod && r.Chance(70) {
 				op = pegOp{Op: "recv", F: true, B: a, X: pegGenAmount(r, big.NewInt(1000)).String(), S: r.Chance(10)}
 			} else {
-				esc := holders[r.Intn(3)]
-				op = pegOp{Op: "recv", A: esc, B: a, X: pegGenAmount(r, coin[esc]).String(), S: r.Chance(10)}
+				op = pegOp{Op: "recv", A: a, B: holders[r.Intn(3)], X: pegGenAmount(r, coin[a]).String(), S: r.Chance(10)}
 			}
 		case k < 84: // IBC acknowledgement
 			if ownerMod && r.Chance(70) {
 				op = pegOp{Op: "ack", F: true, B: a, X: pegGenAmount(r, big.NewInt(1000)).String(), S: r.Chance(30)}
 			} else {
-				esc := holders[r.Intn(3)]
-				op = pegOp{Op: "ack", A: esc, B: a, X: pegGenAmount(r, coin[esc]).String(), S: r.Chance(30)}
+				op = pegOp{Op: "ack", A: a, B: holders[r.Intn(3)], X: pegGenAmount(r, coin[a]).String(), S: r.Chance(30)}
 			}
 		case k < 88:
 			if ownerMod && r.Chance(70) {
 				op = pegOp{Op: "timeout", F: true, B: a, X: pegGenAmount(r, big.NewInt(1000)).String()}
 			} else {
-				esc := holders[r.Intn(3)]
-				op = pegOp{Op: "timeout", A: esc, B: a, X: pegGenAmount(r, coin[esc]).String()}
+				op = pegOp{Op: "timeout", A: a, B: holders[r.Intn(3)], X: pegGenAmount(r, coin[a]).String()}
 			}
 		case k < 91:
 			op = pegOp{Op: "rawsend", A: a, B: holders[r.Intn(3)], X: pegGenAmount(r, coin[a]).String()}
